@@ -936,9 +936,11 @@ pub fn scale_family(thorough: bool) -> Vec<(String, &'static str, Vec<String>)> 
             out.push((format!("{}+?z", body), "", vec!["zxyz".into(), "z".into()]));
         }
         // quantified class strings over a long haystack that fails at the very end (each iteration must have
-        // exactly one way to match a string: duplicate alternatives make the search exponential)
+        // exactly one way to match a string: duplicate alternatives make the search exponential). Every pattern
+        // here is linear by the specification's own search order - a set like \q{ab|a|b} would not be, and the
+        // build variants without a fuel hook (C15's no-std worker) would then run it to the end of time
         if n <= 65 {
-            for (p, unit) in [("^(?:[\\q{ab}\\q{ab|cd}])*$", "ab"), ("^(?:[\\q{ab}\\q{ab|cd}])*$", "cd"), ("^(?:[\\q{abc|de}])*$", "de"), ("^(?:[\\q{abc|de}])*$", "abc"), ("^[\\q{ab|a|b}]+$", "ab"), ("^\\p{Emoji_Keycap_Sequence}+$", "9\u{FE0F}\u{20E3}"), ("^(?:[\\p{Emoji_Keycap_Sequence}\\q{9\u{FE0F}\u{20E3}}])+$", "9\u{FE0F}\u{20E3}")] {
+            for (p, unit) in [("^(?:[\\q{ab}\\q{ab|cd}])*$", "ab"), ("^(?:[\\q{ab}\\q{ab|cd}])*$", "cd"), ("^(?:[\\q{abc|de}])*$", "de"), ("^(?:[\\q{abc|de}])*$", "abc"), ("^\\p{Emoji_Keycap_Sequence}+$", "9\u{FE0F}\u{20E3}"), ("^(?:[\\p{Emoji_Keycap_Sequence}\\q{9\u{FE0F}\u{20E3}}])+$", "9\u{FE0F}\u{20E3}")] {
                 out.push((p.to_string(), "v", vec![format!("{}!", unit.repeat(n)), unit.repeat(n)]));
             }
         }
